@@ -26,10 +26,11 @@ type eprog struct {
 	lateReturn bool // the peer returns only after it has seen all pipelined calls
 	viaProxy   bool // the later calls go through the pipelined client obtained before resolution
 	noise      bool // a second application thread makes an unrelated call concurrently (sender-lock contention)
+	window     int  // > 0: the transport accepts that many unread messages, then send blocks (sender lock held)
 }
 
 func (e eprog) String() string {
-	return fmt.Sprintf("embargo pipe=%d direct=%d lateReturn=%v viaProxy=%v noise=%v", e.nPipe, e.nDirect, e.lateReturn, e.viaProxy, e.noise)
+	return fmt.Sprintf("embargo pipe=%d direct=%d lateReturn=%v viaProxy=%v noise=%v window=%d", e.nPipe, e.nDirect, e.lateReturn, e.viaProxy, e.noise, e.window)
 }
 
 func eprogs() []eprog {
@@ -38,9 +39,13 @@ func eprogs() []eprog {
 		for _, nd := range []int{1, 2} {
 			for _, late := range []bool{false, true} {
 				for _, px := range []bool{false, true} {
-					out = append(out, eprog{np, nd, late, px, false})
+					out = append(out, eprog{np, nd, late, px, false, 0})
 					if np == 1 && nd == 1 {
-						out = append(out, eprog{np, nd, late, px, true})
+						out = append(out, eprog{np, nd, late, px, true, 0})
+						out = append(out, eprog{np, nd, late, px, true, 1})
+					}
+					if nd == 1 {
+						out = append(out, eprog{np, nd, late, px, false, 1})
 					}
 				}
 			}
@@ -61,6 +66,7 @@ func runEmbargo(ep eprog, out *eoutcome) {
 	out.closeAt = -1
 	out.results = map[int]string{}
 	p := s.NewPeer()
+	s.T.Window = ep.window
 	appDone := false
 	vsched.GoNamed("peer", func() {
 		var exportOfL uint32
